@@ -116,7 +116,7 @@ theorem deadlock_free_inv (g : Graph) (hg : GraphOK g) (lim : Option Nat) (hl : 
             by_cases h0 : s.expect - 1 = 0 <;> simp [h0]
           | nil =>
             cases hcan : s.cancelled with
-            | true => exact .inr (ex_of_isSome .cCtxDone (by simp [step?, hc, hcs, hcan]))
+            | true => exact .inr (ex_of_isSome .cCtxDone (by simp [step?, hc, hcs, hcan, hm]))
             | false =>
               -- the lost-wake-up case: impossible
               exfalso
@@ -171,6 +171,7 @@ def mu (g : Graph) (s : St) : Nat :=
   + workW s.workers
   + wsum g.verts (fun v => !(s.received.contains v)) (fun v => 3 * (g.post v).length + 2)
   + schedTotal s
+  + (if s.extCancelled then 0 else 1)
 
 theorem wsum_le (l : List V) (p p' : V → Bool) (f : V → Nat) (hpp : ∀ u, p' u = true → p u = true) :
     wsum l p' f ≤ wsum l p f := by
@@ -296,27 +297,27 @@ theorem mu_decreases {g : Graph} {lim : Option Nat} {s s' : St} {l : Label} (hg 
     have h1 := schedTotal_put (some ⟨todo.erase v, .ready v⟩) hs
     have hlen : (todo.erase v).length + 1 = todo.length := by
       rw [List.length_erase_of_mem hv]; have := List.length_pos_of_mem hv; omega
-    simp only [mu, putSched_status, putSched_workers, putSched_received]
+    simp only [mu, putSched_status, putSched_workers, putSched_received, putSched_extCancelled]
     simp only [schedW, subW] at h1
     omega
   | @schedEnd w hs =>
     have h1 := schedTotal_put none hs
-    simp only [mu, putSched_status, putSched_workers, putSched_received]
+    simp only [mu, putSched_status, putSched_workers, putSched_received, putSched_extCancelled]
     simp only [schedW, subW, List.length_nil] at h1
     omega
   | @readyT w todo v hs _ =>
     have h1 := schedTotal_put (some ⟨todo, .enter v⟩) hs
-    simp only [mu, putSched_status, putSched_workers, putSched_received]
+    simp only [mu, putSched_status, putSched_workers, putSched_received, putSched_extCancelled]
     simp only [schedW, subW] at h1
     omega
   | @readyF w todo v hs _ =>
     have h1 := schedTotal_put (some ⟨todo, .next⟩) hs
-    simp only [mu, putSched_status, putSched_workers, putSched_received]
+    simp only [mu, putSched_status, putSched_workers, putSched_received, putSched_extCancelled]
     simp only [schedW, subW] at h1
     omega
   | @enterF w todo v hs _ =>
     have h1 := schedTotal_put (some ⟨todo, .next⟩) hs
-    simp only [mu, putSched_status, putSched_workers, putSched_received]
+    simp only [mu, putSched_status, putSched_workers, putSched_received, putSched_extCancelled]
     simp only [schedW, subW] at h1
     omega
   | @enterT w todo v hs habs =>
@@ -328,7 +329,7 @@ theorem mu_decreases {g : Graph} {lim : Option Nat} {s s' : St} {l : Label} (hg 
     have hv : v ∈ g.verts := (hB.schedVerts w _ hs).2 v (.inr (.inl rfl))
     have h3 := wsum_lt g.verts (fun u => s.status u == .absent) (fun u => setStatus s.status v .entered u == .absent)
       (fun _ => 7) (status_absent_mono (by decide)) v hv (by simp [habs]) (by simp [setStatus])
-    simp only [mu, putSched_status, putSched_workers, putSched_received]
+    simp only [mu, putSched_status, putSched_workers, putSched_received, putSched_extCancelled]
     simp only [schedW, subW] at h1
     omega
   | @spawn w todo v hs _ =>
@@ -337,7 +338,7 @@ theorem mu_decreases {g : Graph} {lim : Option Nat} {s s' : St} {l : Label} (hg 
     have h1 := schedTotal_put (some ⟨todo, .next⟩) hs1
     have h2 : schedTotal ({ s with workers := (v, .start) :: s.workers } : St) = schedTotal s :=
       schedTotal_congr rfl rfl rfl
-    simp only [mu, putSched_status, putSched_workers, putSched_received, workW, List.map_cons, List.sum_cons, remW]
+    simp only [mu, putSched_status, putSched_workers, putSched_received, putSched_extCancelled, workW, List.map_cons, List.sum_cons, remW]
     simp only [schedW, subW] at h1
     omega
   | @wBeginSkip v hw _ =>
@@ -391,8 +392,11 @@ theorem mu_decreases {g : Graph} {lim : Option Nat} {s s' : St} {l : Label} (hg 
     simp only [mu, schedTotal, ha, hc, schedW, subW] at h3 ⊢
     simp only [Bool.false_eq_true, if_true, if_false, reduceIte]
     omega
-  | cCtxDone ha hc _ =>
+  | cCtxDone ha hc _ _ =>
     simp only [mu, schedTotal, ha, hc, schedW]
+    simp
+  | extCancel hx =>
+    simp only [mu, schedTotal, hx]
     simp
 
 end CV.Trav
